@@ -6,5 +6,4 @@ import LoraVerif.Props.C05Size
 tie-A equalities between the hand model's constants and the items regenerated from the current
 source (`Props/TieA/C10.lean`).  Kept separate from `Props/C10.lean` so that properties which only
 import C10's lemmas do not inherit its generated units.
-import LoraVerif.Props.C05Size
 -/
